@@ -5,7 +5,7 @@ import Bng.Drv.Decoders
 
     new                                  => ok
     md5 <hex>                            => <digest hex>          (validates Bng.Md5 against crypto/md5)
-    dg <secret> <ack|nak|def> <hex>      => drop | act <coa|dm> <fields|-> <response hex>
+    dg <secret> <ack|nak|def|long> <hex>      => drop | act <coa|dm> <fields|-> <response hex>
     dgp <secret> <policy> <prime> <hex>  => the same for <hex>, received immediately after <prime> (the listener
                                             reuses one receive buffer: <prime>'s tail is still in it)
 
@@ -15,7 +15,7 @@ import Bng.Drv.Decoders
                        that is not authentic
     ignored-authentic  an authentic request was dropped (or crashed the listener)
     bad-response       the response does not carry the request's identifier, the ACK/NAK code of the
-                       request kind, a correct length field, or a Response Authenticator
+                       request kind, a correct length field, a well-formed attribute area, or a Response Authenticator
                        MD5(code,id,length,RequestAuth,attributes,secret)
 -/
 namespace Bng.Drv.CoaDrv
@@ -29,6 +29,7 @@ def responseOk (secret dgram resp : Bytes) (kind : String) : Bool :=
     | "dm", some 40, some c => c == 41 || c == 42
     | _, _, _ => false) &&
   (beNat ((resp.take 4).drop 2) == resp.length) &&
+  Coa.attrsWF_strict (resp.drop 20) &&
   ((resp.take 20).drop 4 == Md5.md5 (resp.take 4 ++ (dgram.take 20).drop 4 ++ resp.drop 20 ++ secret))
 
 /-- verdicts for one test datagram; `prime` = the datagram the listener received immediately before
